@@ -27,6 +27,7 @@ import json,sys,os
 p=sys.argv[1]; files=sys.argv[2:]
 cfg=json.load(open('/verif/props/%s.json'%p))
 pk=set(os.path.normpath(x) for x in cfg['packages'])
+pk|=set(os.path.normpath('./'+b['pkg']) for b in cfg.get('bounded',[]))
 hit=any(os.path.normpath('./'+os.path.dirname(f)) in pk or (os.path.dirname(f)=='' and '.' in pk) for f in files)
 sys.exit(0 if hit else 1)
 PY
